@@ -29,7 +29,7 @@ package supervisor
 
 // Exec: a process of the runtime domain is started once, recorded under its name, and gets exactly one waiter goroutine
 //@ func (*LocalSupervisor).Exec
-//@   requires s != nil && req != nil
+//@   requires req != nil
 //@   ensures [other-domains-are-a-no-op] req.Domain != "runtime" ==> r0 == nil && delta(ProcStart) == 0 && delta(WaiterSpawned) == 0
 //@   ensures [start-failure-is-reported] delta(ProcStartFailed) == 1 ==> r0 != nil && delta(WaiterSpawned) == 0
 //@   ensures [one-waiter-per-started-process] req.Domain == "runtime" ==> delta(ProcStart) == 1 && delta(WaiterSpawned) == 1 - delta(ProcStartFailed) && (delta(WaiterSpawned) == 1 ==> r0 == nil && has(s.processMap, req.Name) && first(ProcStart) < first(WaiterSpawned))
@@ -49,14 +49,14 @@ package supervisor
 //@   ensures [outliving-the-deadline-is-an-error] delta(KillDeadlineHit) == 1 ==> r0 != nil
 
 //@ func (*LocalSupervisor).Kill
-//@   requires s != nil && req != nil
+//@   requires req != nil
 //@   ensures [other-domains-are-a-no-op] req.Domain != "runtime" ==> r0 == nil && delta(KillInner) == 0 && delta(SignalSent) == 0
 //@   ensures [unknown-name-is-an-error] req.Domain == "runtime" && !old(has(s.processMap, req.Name)) ==> r0 != nil && typeis(r0, *model.SupervisorError) && r0.(*model.SupervisorError).Kind == model.NoSuchEntity && delta(KillInner) == 0 && delta(SignalSent) == 0
 //@   ensures [known-name-is-killed] req.Domain == "runtime" && old(has(s.processMap, req.Name)) ==> delta(KillInner) == 1 && lastarg(KillInner, 1) == req.Name
 
 // Terminate: SIGTERM to the group, best effort, never waits
 //@ func (*LocalSupervisor).Terminate
-//@   requires s != nil && req != nil
+//@   requires req != nil
 //@   ensures [other-domains-are-a-no-op] req.Domain != "runtime" ==> r0 == nil && delta(SignalSent) == 0
 //@   ensures [unknown-name-is-an-error] req.Domain == "runtime" && !old(has(s.processMap, req.Name)) ==> r0 != nil && delta(SignalSent) == 0
 //@   ensures [sigterm-to-the-group-without-waiting] req.Domain == "runtime" && old(has(s.processMap, req.Name)) ==> r0 == nil && delta(SignalSent) == 1 && delta(TermSignalSent) == 1 && delta(GroupLookup) == 1 && (delta(GroupFound) == 1 && lastret(GroupLookup) >= 0 ==> lastarg(SignalSent, 0) == 0 - lastret(GroupLookup)) && delta(TerminationSeen) == 0 && delta(KillDeadlineHit) == 0
